@@ -483,7 +483,7 @@ func c14Work(c *engine.Ctx) {
 					c.Exec(fsp, lit, map[string]string{"prec": stdconv.Itoa(prec)})
 					c.Count("exec", 1)
 				}
-				if e >= -20 && e <= 15 {
+				if e >= -20 && e <= 40 || e == 100 || e == 308 {
 					for dec := 0; dec <= 18; dec++ {
 						c.Exec(dsp, lit, map[string]string{"dec": stdconv.Itoa(dec)})
 						c.Count("exec", 1)
@@ -506,7 +506,7 @@ func c14Finish(c *engine.Ctx, cov map[string]interface{}) string {
 func init() {
 	register(&engine.Check{
 		ID: "C14", Level: "exploration",
-		Rule:        "parsers: all strings ≤7 over {+ - 0 1 5 9 . e E x} and single-edit neighbours of 70 boundary numerals vs strconv.ParseInt/ParseUint/ParseFloat on the longest syntactic prefix; AppendInt/LenInt on {±(10^k+d), ±(2^k+d), 0, min, max}; AppendNumber→ParseNumber on that family × dec 0..18 × groupSize 0..6 × ordered pairs of distinct symbols of 1–4 UTF-8 bytes; AppendFloat on m·10^e (m≤99 quick / 999 thorough, e∈[-330,310], both signs) × prec −1..18: well-formed, right sign, within one unit of the requested last digit (big.Float); AppendDecimal on e∈[-20,15] × dec 0..18 vs big.Rat round-half-away with trailing zeros dropped; every formatter with a prefix in the destination at cap==len and with room",
+		Rule:        "parsers: all strings ≤7 over {+ - 0 1 5 9 . e E x} and single-edit neighbours of 70 boundary numerals vs strconv.ParseInt/ParseUint/ParseFloat on the longest syntactic prefix; AppendInt/LenInt on {±(10^k+d), ±(2^k+d), 0, min, max}; AppendNumber→ParseNumber on that family × dec 0..18 × groupSize 0..6 × ordered pairs of distinct symbols of 1–4 UTF-8 bytes; AppendFloat on m·10^e (m≤99 quick / 999 thorough, e∈[-330,310], both signs) × prec −1..18: well-formed, right sign, within one unit of the requested last digit (big.Float); AppendDecimal on e∈[-20,40] ∪ {100, 308} × dec 0..18 vs big.Rat round-half-away with trailing zeros dropped; every formatter with a prefix in the destination at cap==len and with room",
 		Assumptions: []string{"AppendDecimal is accepted if it equals round-half-away of either the shortest decimal form of the float or its exact binary value", "ParseFloat exponents longer than 18 digits are not compared"},
 		Setup:       c14Setup, Work: c14Work, Finish: c14Finish,
 	})
